@@ -36,6 +36,19 @@ pub fn run(out: &mut Out, rng: &mut Rng, thorough: bool) {
 			}
 		}
 	}
+	// Documents closed by the explicit `...` end marker, comments between documents.
+	for y in [
+		&b"a: 1\nb: [1, 2, 3]\n...\n"[..],
+		b"a: 1\n...\n---\nb: 2\n...\n",
+		b"- x\n...\n# comment\n---\n- y\n...\n# tail comment\n",
+		b"--- {a: 1}\n...\n--- [2]\n",
+	] {
+		items.push((Fmt::Yaml, y.to_vec()));
+	}
+	for j in [&b"{\"a\":1}\n{\"b\":2}\n"[..], b"[1]  \n\n[2]"] {
+		items.push((Fmt::Json, j.to_vec()));
+	}
+	items.push((Fmt::Msgpack, b"\x91\x01\x81\xa1a\x02\x90".to_vec()));
 	for (f, input) in &items {
 		for from in [Some(*f), None] {
 			let tos: Vec<Fmt> = if thorough { ALL_FMTS.to_vec() } else { vec![*rng.pick(&ALL_FMTS), *rng.pick(&ALL_FMTS)] };
